@@ -184,7 +184,7 @@ def render_class(i, c, ind="    ", via=(), names=None):
         else:
             lines.append(f"@{dn}")
     nm = (lambda j: names[j]) if names else (lambda j: f"K{j}")      # names: a class may be given the name of another (re-binding shapes)
-    bases = ", ".join(nm(b) for b in c["bases"])
+    bases = ", ".join(base_list(c, nm))
     lines.append(f"class {nm(i)}({bases}):" if bases else f"class {nm(i)}:")
     body = []
     for k, s in enumerate(c["body"]):
@@ -257,6 +257,8 @@ def header(table, via=(), compat=None, how="from"):
         lines.append("from typing import ClassVar as CV")
     if via:
         lines.append(f"from {compat} import " + (", ".join(n for n in HELPERS if n in via) if how == "from" else "*"))
+    if any(c.get("xb") for c in table):
+        lines += XIMPORTS
     return lines
 
 
@@ -353,8 +355,20 @@ def render_split(table, where, pkg, imp="from", via=(), how="from"):
     return out, hw_line
 
 
+XBASES = ["ABC", "Generic[T]"]       # bases Griffe cannot resolve (their packages are never loaded); each at most once per class
+XIMPORTS = ["from abc import ABC", "from typing import Generic, TypeVar", 'T = TypeVar("T")']
+
+
+def base_list(c, nm=lambda j: f"K{j}"):
+    """the bases as written: the classes of the table with the external ones (c['xb'] = [(position, kind)]) put in between"""
+    out = [nm(b) for b in c["bases"]]
+    for pos, kind in sorted(c.get("xb") or []):
+        out.insert(min(pos, len(out)), XBASES[kind])
+    return out
+
+
 def skeleton(table):
-    return "".join(f"class K{i}({', '.join('K%d' % b for b in c['bases'])}): pass\n" for i, c in enumerate(table))
+    return "\n".join(XIMPORTS) + "\n" + "".join(f"class K{i}({', '.join(base_list(c))}): pass\n" for i, c in enumerate(table))
 
 
 # ---------------------------------------------------------------- model encoding
@@ -410,7 +424,7 @@ def cpython_mros(table):
     except TypeError:
         return None
     idx = {ns[f"K{i}"]: i for i in range(len(table))}
-    return [[idx[k] for k in ns[f"K{i}"].__mro__[1:-1]] for i in range(len(table))]
+    return [[idx[k] for k in ns[f"K{i}"].__mro__[1:-1] if k in idx] for i in range(len(table))]
 
 
 def pname(s):
@@ -687,6 +701,9 @@ def griffe_view(ctx, table, hw_line_single, split, load=None):
             locate = lambda i: f"K{i}"  # noqa: E731
         else:
             d = base / name
+            if d.exists():          # edit-and-reload histories: the same files are rewritten in place
+                import shutil
+                shutil.rmtree(d)
             d.mkdir()
             mods, hw_line = render_split(table, where, name, imp, via, how)
             for m, text in mods.items():
@@ -823,7 +840,11 @@ def rand_table(rng, maxn=4, quiet=False, initvar=0.0):
             # __post_init__ assigning declared fields (whatever their form: init=False, kw_only, required, ClassVar, InitVar) and new attributes
             declared = [s[1] for s in body if s[0] == "attr" and s[2] != "kwonly"]
             post = [(nme, False) for nme in declared if rng.random() < 0.6] + [(70 + i, rng.random() < 0.5) for _ in range(rng.choice([0, 1, 1]))]
-        table.append({"dec": dec, "body": body, "hw": hw, "bases": bases, "style": rng.randrange(30030), "post": post})
+        xb = None
+        if rng.random() < 0.12:
+            # bases that Griffe cannot resolve (ABC, Generic[T]) in any position: before, between, after the classes of the table
+            xb = [(rng.randint(0, len(bases)), kind) for kind in rng.sample(range(len(XBASES)), rng.choice([1, 1, 2]))]
+        table.append({"dec": dec, "body": body, "hw": hw, "bases": bases, "style": rng.randrange(30030), "post": post, "xb": xb})
     return table
 
 
@@ -906,7 +927,7 @@ def table_depth(table):
 
 
 def case_json(table, split):
-    return {"table": [{"dec": c["dec"], "body": c["body"], "hw": c["hw"], "bases": c["bases"], "style": c["style"], "post": c.get("post")} for c in table],
+    return {"table": [{"dec": c["dec"], "body": c["body"], "hw": c["hw"], "bases": c["bases"], "style": c["style"], "post": c.get("post"), "xb": c.get("xb")} for c in table],
             "split": split, "source": render(table)[0]}
 
 
@@ -1132,7 +1153,9 @@ def check_tables(ctx, tables, stream, use_model=True, mirror=False, loads=None, 
         src, hw_line = render(table)
         case = case_json(table, split)
         if load is not None:
-            case["history"] = {"package": load["name"], "version": len(load["prev"]), "earlier_versions_loaded_through_the_same_extensions": list(load["prev"])}
+            case["history"] = {"package": load["name"], "version": len(load["prev"]), "earlier_versions_loaded_through_the_same_extensions": list(load["prev"]),
+                               "files_edited_in_place": bool(load.get("inplace"))}
+            ctx.observe("history: files edited in place and loaded again", bool(load.get("inplace")))
             ctx.observe("history position", len(load["prev"]))
         nontrivial = any(c["dec"] is not None and any(s[0] == "annprop" or (s[0] == "attr" and s[2] != "none") for s in c["body"]) for c in table)
         ctx.case(case, nontrivial)
@@ -1608,13 +1631,17 @@ def check_histories(ctx, n, use_model=True, mirror=False):
         name = f"c18h{next(_counter)}"
         prev = []
         nver = ctx.rng.choice([2, 2, 3])
+        inplace = ctx.rng.random() < 0.5
         first = rand_table(ctx.rng, maxn=3, quiet=True)
         groups.append(range(len(tables), len(tables) + nver))
         for v in range(nver):
             t = first if v == 0 else (evolve(ctx.rng, first) if ctx.rng.random() < 0.6 else rand_table(ctx.rng, maxn=3, quiet=True))
             split = rand_split(ctx.rng, t) if (len(t) >= 2 and ctx.rng.random() < 0.3) else None
             tables.append(t)
-            loads.append({"name": name, "dir": f"hist/{name}/v{v}", "extensions": ext, "recorder": rec, "split": split, "prev": prev})
+            # half of the histories EDIT THE FILES IN PLACE (same paths, the first class statement on the same line) and load again,
+            # the others put each version in a directory of its own
+            loads.append({"name": name, "dir": f"hist/{name}/same" if inplace else f"hist/{name}/v{v}", "extensions": ext, "recorder": rec, "split": split, "prev": prev,
+                          "inplace": inplace})
     recs = check_tables(ctx, tables, "history: versions of one package through shared extensions", use_model=use_model, mirror=mirror, loads=loads)
     if not use_model:
         return
@@ -1655,7 +1682,7 @@ def evolve(rng, table):
         free = [n for n in range(NAMES) if n not in used]
         if free and rng.random() < 0.7:
             body.append(("attr", rng.choice(free), "plain", ("plain",)))
-        out.append({"dec": c["dec"], "body": body, "hw": c["hw"], "bases": list(c["bases"]), "style": c["style"] + 1, "post": c.get("post")})
+        out.append({"dec": c["dec"], "body": body, "hw": c["hw"], "bases": list(c["bases"]), "style": c["style"] + 1, "post": c.get("post"), "xb": c.get("xb")})
     return out
 
 
@@ -1744,7 +1771,7 @@ def replay(ctx, data):
         return 0
     def untable(tj):
         return [{"dec": None if c["dec"] is None else tuple(c["dec"]), "body": [detuple(s) for s in c["body"]], "hw": c["hw"], "bases": c["bases"],
-                 "style": c.get("style", 0), "post": [tuple(x) for x in c["post"]] if c.get("post") else None} for c in tj]
+                 "style": c.get("style", 0), "post": [tuple(x) for x in c["post"]] if c.get("post") else None, "xb": [tuple(x) for x in c["xb"]] if c.get("xb") else None} for c in tj]
     table = untable(case["table"])
     ctx.scratch.mkdir(parents=True, exist_ok=True)
     src, hw_line = render(table)
@@ -1758,8 +1785,8 @@ def replay(ctx, data):
         print(f"# version {hist['version']} of package {hist['package']}; {len(earlier)} earlier version(s) loaded first through the same extensions object")
         for v, e in enumerate(earlier):
             t0 = untable(e["table"])
-            griffe_view(ctx, t0, render(t0)[1], e.get("split"), {"name": hist["package"], "dir": f"replay/v{v}", "extensions": ext})
-        load = {"name": hist["package"], "dir": "replay/current", "extensions": ext}
+            griffe_view(ctx, t0, render(t0)[1], e.get("split"), {"name": hist["package"], "dir": "replay/same" if hist.get("files_edited_in_place") else f"replay/v{v}", "extensions": ext})
+        load = {"name": hist["package"], "dir": "replay/same" if hist.get("files_edited_in_place") else "replay/current", "extensions": ext}
     if case.get("split"):
         print("# layout:", case["split"])
     gv = griffe_view(ctx, table, hw_line, case.get("split"), load)
